@@ -403,9 +403,22 @@ func (ex *Exec) specCall(st *State, e *ast.CallExpr) []*Val {
 				t = ex.sRef(t)
 			}
 			return one(&Val{T: tBool, Term: ge(t, ex.alloc(ex.oldView(st)))})
+		case "implements":
+			// implements(x, "pkg/path.Iface"): dynamic type of x implements the interface
+			x := ex.expr(st, e.Args[0])
+			key := strings.Trim(e.Args[1].(*ast.BasicLit).Value, "`\"")
+			okT := ex.D.app("implements$"+smtName(key), SBool, ex.D.app("dyntype", SInt, x.Term))
+			return one(&Val{T: tBool, Term: and(not(eq(x.Term, intLit(0))), okT)})
+		case "done":
+			// done(ctx): ghost done-ness of a context now
+			x := ex.expr(st, e.Args[0])
+			return one(&Val{T: tBool, Term: ex.ctxDone(st, x.Term)})
+		case "unboxStr":
+			x := ex.expr(st, e.Args[0])
+			return one(&Val{T: tString, Term: ex.D.app("unbox$"+smtName(SStr), SStr, x.Term)})
 		case "held":
-			// held(lockexpr): lock is held at this point
-			txt := exprText(e.Args[0])
+			// held("Type.lock"): lock is held at this point
+			txt := strings.Trim(exprText(e.Args[0]), "\"")
 			_, ok := st.held[txt]
 			if ok {
 				return one(&Val{T: tBool, Term: tTrue})
